@@ -47,6 +47,7 @@ type EQuant struct {
 	Vars   []QVar
 	Body   Expr
 	Trig   [][]Expr
+	Witness []Expr // for exists: terms that prove it when it occurs positively in a goal
 }
 type ECond struct{ C, A, B Expr }
 type ETypeIs struct { // x is T
@@ -209,6 +210,8 @@ type TableSpec struct {
 	Sem      []Clause
 	Requires []Clause
 	Modifies []Expr
+	StrMap   bool   // map[string]string literal: Sem is a lemma per entry and the contract of a lookup
+	ValVar   string
 	Keys []string // expected key set (optional; if given, must equal the literal's)
 	Line int
 	File string
@@ -289,7 +292,7 @@ func (p *parser) ident() (string, error) {
 	return t.text, nil
 }
 
-var itemKeywords = map[string]bool{"spec": true, "axiom": true, "lemma": true, "func": true, "external": true, "iface": true, "table": true, "schema": true}
+var itemKeywords = map[string]bool{"strmap": true, "spec": true, "axiom": true, "lemma": true, "func": true, "external": true, "iface": true, "table": true, "schema": true}
 var clauseKeywords = map[string]bool{"requires": true, "ensures": true, "modifies": true, "loop": true, "invariant": true, "pure": true, "trusted": true, "props": true, "use": true, "bounded": true, "assumes": true, "allowpanic": true, "nobody": true, "uses": true, "keys": true, "sem": true, "local": true, "absfloat": true}
 
 func parseSpecFile(pkg, file, src string) (*SpecFile, error) {
@@ -394,6 +397,18 @@ func parseSpecFile(pkg, file, src string) (*SpecFile, error) {
 				return nil, err
 			}
 			sf.Schemas[name] = &Schema{Name: name, Params: params, Contract: c}
+		case "strmap":
+			tb, err := p.parseTable()
+			if err != nil {
+				return nil, err
+			}
+			tb.StrMap = true
+			if len(tb.Params) != 1 {
+				return nil, fmt.Errorf("%s:%d: strmap needs (key; value)", file, t.line)
+			}
+			tb.ValVar = tb.Params[0]
+			tb.Params = nil
+			sf.Tables = append(sf.Tables, tb)
 		case "table":
 			tb, err := p.parseTable()
 			if err != nil {
@@ -954,7 +969,11 @@ func substExpr(e Expr, args map[string]Expr) Expr {
 		for _, v := range x.Vars {
 			delete(inner, v.Name)
 		}
-		return &EQuant{Forall: x.Forall, Vars: x.Vars, Body: substExpr(x.Body, inner)}
+		nq := &EQuant{Forall: x.Forall, Vars: x.Vars, Body: substExpr(x.Body, inner), Trig: x.Trig}
+		for _, w := range x.Witness {
+			nq.Witness = append(nq.Witness, substExpr(w, args))
+		}
+		return nq
 	case *ECond:
 		return &ECond{substExpr(x.C, args), substExpr(x.A, args), substExpr(x.B, args)}
 	case *ETypeIs:
@@ -1437,6 +1456,18 @@ func (p *parser) parsePrimary() (Expr, error) {
 				q.Vars = append(q.Vars, v)
 				if !p.acceptP(",") {
 					break
+				}
+			}
+			if p.acceptKw("witness") {
+				for {
+					w, err := p.parseUnary()
+					if err != nil {
+						return nil, err
+					}
+					q.Witness = append(q.Witness, w)
+					if !p.acceptP(",") {
+						break
+					}
 				}
 			}
 			if err := p.expectP("::"); err != nil {
